@@ -14,10 +14,10 @@ Lemma shape_order_unfold fuel ob names g r :
 Proof. intros H. unfold shape_order_indices. rewrite H. reflexivity. Qed.
 
 Lemma shape_order_sinv fuel ob names g st :
-  vlen g < NPOS -> shape_order_indices fuel ob names g = Ok st -> SInv (vlen g) 0 st /\ complete (vlen g) st.
+  vlen g < NPOS -> shape_order_indices fuel ob names g = Ok st -> SInv (vlen g) 0 [] st /\ complete (vlen g) st.
 Proof.
   intros Hn H. pose proof NPOS_lt. assert (Hs : 0 + vlen g < 4294967296) by lia.
-  assert (E : exists s1, SInv (vlen g) 0 s1 /\ leftover (length g) s1 = Ok st).
+  assert (E : exists s1, SInv (vlen g) 0 [] s1 /\ leftover (length g) s1 = Ok st).
   { unfold shape_order_indices in H. destruct (root_node g) as [r|].
     - unfold seq2 in H.
       destruct (sort_run ob _ fuel (CSet r) (init_state g 0)) as [s1| |] eqn:E; cbn [bind] in H; try discriminate.
@@ -47,9 +47,9 @@ Proof.
   destruct (root_node g) as [r|].
   - unfold seq2 in H.
     destruct (sort_run ob _ fuel (CSet r) (init_state g 0)) as [s1| |] eqn:E; cbn [bind] in H; try discriminate.
-    eapply (leftover_preserves (fun s => grel g (st_gr s))); [exact HA|exact H|].
+    eapply (leftover_preserves_unary (fun s => grel g (st_gr s))); [exact HA|exact H|].
     eapply run_children; eauto. apply grel_refl.
-  - eapply (leftover_preserves (fun s => grel g (st_gr s))); [exact HA|exact H|apply grel_refl].
+  - eapply (leftover_preserves_unary (fun s => grel g (st_gr s))); [exact HA|exact H|apply grel_refl].
 Qed.
 
 (* the root node (GetRootNode: the first node in block order) gets index 0 *)
@@ -64,9 +64,9 @@ Proof.
     inversion Hr; subst i. assert (Hin : In r (indices_where (has_kind K_NODE) 0 g)) by (rewrite Ei; left; reflexivity).
     apply indices_where_spec in Hin. apply getb_in_range; lia. }
   destruct Hb as (b & Hb).
-  assert (H1 : root_at r s1).
+  assert (H1 : root_at r [] s1).
   { eapply cset_root; eauto. unfold kind_at in Hc. rewrite Hb in Hc. exact Hc. }
-  assert (H2 : root_at r st).
+  assert (H2 : root_at r [] st).
   { eapply (leftover_preserves (root_at r)); [apply root_at_assign|exact H|exact H1]. }
   apply H2.
 Qed.
